@@ -194,7 +194,7 @@ func (b *Built) judgeExec(fam string, env *Env, ctx int, e *Expr, want Val, styl
 			if ok, why := b.valueAgrees(want, o.res); !ok {
 				add("value", why+"; expected "+short(want)+" observed "+short(b.observe(o.res)))
 			}
-			if ok, why := b.orderOK(e, o.res); !ok {
+			if ok, why := b.orderOK(e, o.res, env); !ok {
 				add("order", why)
 			}
 		}
